@@ -31,10 +31,14 @@ const (
 )
 
 type Server struct {
-	Store           queue.Store
-	Target          string
-	ResolveRoute    func(endpoint string) (route string, ok bool)
-	Authorize       Authorizer
+	Store        queue.Store
+	Target       string
+	ResolveRoute func(endpoint string) (route string, ok bool)
+	Authorize    Authorizer
+	// PlanRequest, when set, replaces the Authorize + ResolveRoute pair for HTTP
+	// requests: it authorizes the request and resolves its endpoint against one
+	// consistent view of the configuration, so that a reload cannot fall between.
+	PlanRequest     func(r *http.Request, endpoint string) (route string, authorized bool, found bool)
 	ObserveDequeue  func(route string, statusCode int, items []queue.Envelope)
 	ObserveAck      func(route string, statusCode int, leaseID string, leaseExpired bool)
 	ObserveNack     func(route string, statusCode int, leaseID string, leaseExpired bool)
@@ -85,12 +89,6 @@ func (s *Server) ServeHTTP(w http.ResponseWriter, r *http.Request) {
 		return
 	}
 
-	if s.Authorize != nil && !s.Authorize(r) {
-		writeError(w, http.StatusUnauthorized, pullErrUnauthorized, "request is not authorized")
-		return
-	}
-	verifhook.Point("pull.after-authorize")
-
 	cleanPath := path.Clean(r.URL.Path)
 	op := path.Base(cleanPath)
 	endpoint := strings.TrimSuffix(cleanPath, "/"+op)
@@ -98,7 +96,24 @@ func (s *Server) ServeHTTP(w http.ResponseWriter, r *http.Request) {
 		endpoint = "/"
 	}
 
-	route, ok := s.resolveRoute(endpoint)
+	var route string
+	var ok bool
+	if s.PlanRequest != nil {
+		var authorized bool
+		route, authorized, ok = s.PlanRequest(r, endpoint)
+		if !authorized {
+			writeError(w, http.StatusUnauthorized, pullErrUnauthorized, "request is not authorized")
+			return
+		}
+		verifhook.Point("pull.after-authorize")
+	} else {
+		if s.Authorize != nil && !s.Authorize(r) {
+			writeError(w, http.StatusUnauthorized, pullErrUnauthorized, "request is not authorized")
+			return
+		}
+		verifhook.Point("pull.after-authorize")
+		route, ok = s.resolveRoute(endpoint)
+	}
 	if !ok {
 		writeError(w, http.StatusNotFound, pullErrRouteNotFound, "pull endpoint is not configured")
 		return
